@@ -57,8 +57,8 @@ ASSUMPTIONS = [
     "only positional-or-keyword parameters (no *args/**kwargs/keyword-only/positional-only); arguments are query "
     "variables with explicit domains, attribute / method-call / index expressions over ONE such variable, or ordinary "
     "objects (no nested predicate calls, no expressions over two variables); a variable is only ever read as an "
-    "argument of the call or of HasType, never as a comparator operand (a falsy bound value read by a comparator is "
-    "finding F-C01-3)",
+    "argument of the call or of HasType, never as a comparator operand (a falsy bound value read by a comparator was "
+    "finding F-C01-3, repaired by fix 78cb732; the restriction of the generator is kept)",
 ]
 RULE = ("exhaustive small scope: every signature of arity 1..4 (quick) / 1..5 (thorough) with every trailing set of "
         "defaults, every set of supplied parameters Python accepts, every positional/keyword split, every "
